@@ -21,7 +21,7 @@ theorem inv_rlk (n : Nat) (sh : Sh) (pcs : Nat → Pc) (t : Nat) (e : Env) (o : 
   next hheld =>
     simp only [Option.some.injEq, Prod.mk.injEq] at hts; obtain ⟨rfl, rfl⟩ := hts
     refine ⟨gate_same n sh _ pcs t _ hlt hgI rfl rfl rfl (by rw [hgp]; rfl),
-      rl_step n sh _ pcs t _ (menv e) hlt hrI (by rw [hrp, hm, hheld]; rfl), ?_, hgrp, hwg⟩
+      rl_step n sh _ pcs t _ (menvR e) hlt hrI (by rw [hrp, hm, hheld]; rfl), ?_, hgrp, hwg⟩
     have := hC (.rlp o); simp only [cntR] at this
     cases o <;> simp at this ⊢ <;> omega
   next hnh =>
@@ -29,13 +29,13 @@ theorem inv_rlk (n : Nat) (sh : Sh) (pcs : Nat → Pc) (t : Nat) (e : Env) (o : 
   next hidle =>
     simp only [Option.some.injEq, Prod.mk.injEq] at hts; obtain ⟨rfl, rfl⟩ := hts
     refine ⟨gate_same n sh _ pcs t _ hlt hgI rfl rfl rfl (by rw [hgp]; rfl),
-      rl_step n sh _ pcs t _ (menv e) hlt hrI (by rw [hrp, hm, hidle]; rfl), ?_, hgrp, hwg⟩
+      rl_step n sh _ pcs t _ (menvR e) hlt hrI (by rw [hrp, hm, hidle]; rfl), ?_, hgrp, hwg⟩
     have := hC .idle; simp only [cntR] at this
     cases o <;> simp at this ⊢ <;> omega
   next hni =>
     simp only [Option.some.injEq, Prod.mk.injEq] at hts; obtain ⟨rfl, rfl⟩ := hts
     refine ⟨gate_same n sh _ pcs t _ hlt hgI rfl rfl rfl (by rw [hgp]; rfl),
-      rl_step n sh _ pcs t _ (menv e) hlt hrI (by rw [hrp, hm]; rfl), ?_, hgrp, hwg⟩
+      rl_step n sh _ pcs t _ (menvR e) hlt hrI (by rw [hrp, hm]; rfl), ?_, hgrp, hwg⟩
     have := hC (.rlk o p'); simp only [cntR] at this
     cases o <;> simp at this ⊢ <;> omega
 
